@@ -154,9 +154,38 @@ def _relocated(tree, at):
     return tree
 
 
+def _number(tree):
+    """source order of the tree as it stands (statements of inlined helpers keep the line numbers of the place they
+    came from, so positions cannot order them): pre-order index and the largest index inside each node"""
+    counter = [0]
+
+    def visit(n):
+        counter[0] += 1
+        n._ord = counter[0]
+        for ch in ast.iter_child_nodes(n):
+            visit(ch)
+        n._ord_end = counter[0]
+    visit(tree)
+
+
+# calls that consume or change something: an expression that contains one is evaluated where it stands, once
+_IMPURE = {"next", "send", "throw", "pop", "popitem", "popall", "read", "readline", "readlines", "write", "append", "extend",
+           "insert", "remove", "clear", "update", "setdefault", "add", "discard", "seek", "close"}
+
+
+def _impure(value):
+    for x in ast.walk(value):
+        if isinstance(x, ast.Call):
+            nm = x.func.attr if isinstance(x.func, ast.Attribute) else getattr(x.func, "id", "")
+            if nm in _IMPURE:
+                return True
+    return False
+
+
 def forward_substitute(fn, keep=()):
     new = clone(fn)
     for _ in range(6):
+        _number(new)
         binds, params, count, par, where = _single_bindings(new)
         # a binding is usable when everything it reads is never rebound in the function
         usable = {}
@@ -165,7 +194,7 @@ def forward_substitute(fn, keep=()):
         mutated = set()
         for n_ in ast.walk(new):
             if isinstance(n_, ast.Expr) and isinstance(n_.value, ast.Call) and isinstance(n_.value.func, ast.Attribute) \
-                    and isinstance(n_.value.func.value, ast.Name):
+                    and isinstance(n_.value.func.value, ast.Name) and n_.value.func.attr in _IMPURE:
                 mutated.add(n_.value.func.value.id)
             if isinstance(n_, (ast.Assign, ast.AugAssign, ast.Delete)):
                 for t_ in (n_.targets if not isinstance(n_, ast.AugAssign) else [n_.target]):
@@ -175,6 +204,8 @@ def forward_substitute(fn, keep=()):
             if k in keep or k in mutated:
                 continue
             if any(isinstance(x, (ast.Yield, ast.YieldFrom, ast.Await, ast.NamedExpr, ast.Lambda)) for x in ast.walk(value)):
+                continue
+            if _impure(value):
                 continue
             ok = True
             for r in _reads(value):
@@ -188,7 +219,7 @@ def forward_substitute(fn, keep=()):
                 if r in binds:
                     continue            # bound once, before (checked by position below)
                 if count.get(r, 0) == 1 and where.get(r, (None, None))[0] is not None \
-                        and where[r][0].end_lineno < node.lineno:
+                        and where[r][0]._ord_end < node._ord:
                     continue            # bound once (inside a loop or branch) by a statement that ends before this binding
                 ok = False
             if ok:
@@ -199,7 +230,7 @@ def forward_substitute(fn, keep=()):
 
         def dominated(use, node):
             """the binding statement precedes the use and every conditional block around the binding also encloses the use"""
-            if (use.lineno, use.col_offset) <= (node.end_lineno, node.end_col_offset):
+            if getattr(use, "_ord", 0) <= node._ord_end:
                 return False
             blocks = _enclosing(par, node, new, (ast.If, ast.Try, ast.With, ast.ExceptHandler, ast.Match if hasattr(ast, "Match") else ast.If))
             if not blocks:
